@@ -7,6 +7,156 @@ import (
 	"github.com/ipld/go-ipld-prime/schema"
 )
 
+// ---- declarative description of the family: the single source from which both the real
+// schema.TypeSystem (handed to bindnode and to the code generator) and the reference semantics
+// of ref/refschema are derived ----
+
+type T struct {
+	Name    string
+	Kind    string // int string bool bytes struct map list union enum
+	Repr    string // struct: map tuple stringjoin listpairs; union: keyed kinded stringprefix; enum: string int
+	Delim   string
+	Fields  []F
+	Members []M
+	Elem    string // map value / list element type name
+	NoGen   bool   // outside the code generator's feature set
+}
+
+type F struct {
+	Name     string
+	Type     string
+	Optional bool
+	Nullable bool
+	Rename   string
+}
+
+type M struct {
+	Type  string // union member type name / enum member name
+	Discr string // keyed: key; stringprefix: prefix; enum string: representation string
+	Kind  datamodel.Kind
+	Int   int // enum int representation
+}
+
+var Family = []*T{
+	{Name: "Int", Kind: "int"}, {Name: "String", Kind: "string"}, {Name: "Bool", Kind: "bool"}, {Name: "Bytes", Kind: "bytes"},
+	{Name: "Foo", Kind: "string"}, {Name: "Bar", Kind: "string"},
+	{Name: "Plain", Kind: "struct", Repr: "map", Fields: []F{{Name: "A", Type: "Int", Rename: "a!"}, {Name: "B", Type: "String"}, {Name: "C", Type: "Bool"}}},
+	{Name: "Narrow", Kind: "struct", Repr: "map", NoGen: true, Fields: []F{{Name: "N", Type: "Int"}, {Name: "U", Type: "Int"}, {Name: "W", Type: "Int"}, {Name: "X", Type: "Int"}}},
+	{Name: "OptNull", Kind: "struct", Repr: "map", Fields: []F{{Name: "Req", Type: "Int"}, {Name: "Opt", Type: "String", Optional: true}, {Name: "Nul", Type: "Int", Nullable: true}, {Name: "Both", Type: "String", Optional: true, Nullable: true}}},
+	{Name: "Tuple", Kind: "struct", Repr: "tuple", Fields: []F{{Name: "X", Type: "Int"}, {Name: "Y", Type: "String"}, {Name: "Z", Type: "String", Optional: true}}},
+	{Name: "Join", Kind: "struct", Repr: "stringjoin", Delim: ":", Fields: []F{{Name: "P", Type: "String"}, {Name: "Q", Type: "String"}}},
+	{Name: "Pairs", Kind: "struct", Repr: "listpairs", NoGen: true, Fields: []F{{Name: "A", Type: "Int"}, {Name: "B", Type: "String"}}},
+	{Name: "MapSI", Kind: "map", Elem: "Int"},
+	{Name: "ListS", Kind: "list", Elem: "String"},
+	{Name: "ListI", Kind: "list", Elem: "Int"},
+	{Name: "UnionK", Kind: "union", Repr: "keyed", Members: []M{{Type: "Int", Discr: "i"}, {Type: "String", Discr: "s"}}},
+	{Name: "UnionKinded", Kind: "union", Repr: "kinded", Members: []M{{Type: "Int", Kind: datamodel.Kind_Int}, {Type: "String", Kind: datamodel.Kind_String}, {Type: "Plain", Kind: datamodel.Kind_Map}}},
+	{Name: "UnionSP", Kind: "union", Repr: "stringprefix", Delim: ":", Members: []M{{Type: "Foo", Discr: "f"}, {Type: "Bar", Discr: "b"}}},
+	{Name: "EnumS", Kind: "enum", Repr: "string", NoGen: true, Members: []M{{Type: "Yes", Discr: "Yes"}, {Type: "No", Discr: "n"}}},
+	{Name: "EnumI", Kind: "enum", Repr: "int", NoGen: true, Members: []M{{Type: "One", Int: 1}, {Type: "Two", Int: 2}}},
+	{Name: "Outer", Kind: "struct", Repr: "map", Fields: []F{{Name: "P", Type: "Plain"}, {Name: "L", Type: "ListI"}, {Name: "M", Type: "MapSI"}, {Name: "U", Type: "UnionK"}}},
+	{Name: "Nested", Kind: "struct", Repr: "map", NoGen: true, Fields: []F{{Name: "P", Type: "Plain"}, {Name: "L", Type: "ListI"}, {Name: "M", Type: "MapSI"}, {Name: "U", Type: "UnionK"}, {Name: "E", Type: "EnumS"}, {Name: "EI", Type: "EnumI"}, {Name: "By", Type: "Bytes"}}},
+}
+
+// ByName finds a description.
+func ByName(name string) *T {
+	for _, t := range Family {
+		if t.Name == name {
+			return t
+		}
+	}
+	panic("schemas: no type " + name)
+}
+
+// Build makes the real type system from the descriptions (gen: only the generator's feature set).
+func Build(gen bool) *schema.TypeSystem {
+	ts := &schema.TypeSystem{}
+	ts.Init()
+	for _, t := range Family {
+		if gen && t.NoGen {
+			continue
+		}
+		n := schema.TypeName(t.Name)
+		switch t.Kind {
+		case "int":
+			ts.Accumulate(schema.SpawnInt(n))
+		case "string":
+			ts.Accumulate(schema.SpawnString(n))
+		case "bool":
+			ts.Accumulate(schema.SpawnBool(n))
+		case "bytes":
+			ts.Accumulate(schema.SpawnBytes(n))
+		case "map":
+			ts.Accumulate(schema.SpawnMap(n, "String", schema.TypeName(t.Elem), false))
+		case "list":
+			ts.Accumulate(schema.SpawnList(n, schema.TypeName(t.Elem), false))
+		case "struct":
+			var fs []schema.StructField
+			renames := map[string]string{}
+			for _, f := range t.Fields {
+				fs = append(fs, schema.SpawnStructField(f.Name, schema.TypeName(f.Type), f.Optional, f.Nullable))
+				if f.Rename != "" {
+					renames[f.Name] = f.Rename
+				}
+			}
+			var repr schema.StructRepresentation
+			switch t.Repr {
+			case "map":
+				repr = schema.SpawnStructRepresentationMap(renames)
+			case "tuple":
+				repr = schema.SpawnStructRepresentationTuple()
+			case "stringjoin":
+				repr = schema.SpawnStructRepresentationStringjoin(t.Delim)
+			case "listpairs":
+				repr = schema.SpawnStructRepresentationListPairs()
+			}
+			ts.Accumulate(schema.SpawnStruct(n, fs, repr))
+		case "union":
+			var ms []schema.TypeName
+			keyed := map[string]schema.TypeName{}
+			kinded := map[datamodel.Kind]schema.TypeName{}
+			for _, m := range t.Members {
+				ms = append(ms, schema.TypeName(m.Type))
+				keyed[m.Discr] = schema.TypeName(m.Type)
+				kinded[m.Kind] = schema.TypeName(m.Type)
+			}
+			var repr schema.UnionRepresentation
+			switch t.Repr {
+			case "keyed":
+				repr = schema.SpawnUnionRepresentationKeyed(keyed)
+			case "kinded":
+				repr = schema.SpawnUnionRepresentationKinded(kinded)
+			case "stringprefix":
+				repr = schema.SpawnUnionRepresentationStringprefix(t.Delim, keyed)
+			}
+			ts.Accumulate(schema.SpawnUnion(n, ms, repr))
+		case "enum":
+			var ms []string
+			rs, ri := schema.EnumRepresentation_String{}, schema.EnumRepresentation_Int{}
+			for _, m := range t.Members {
+				ms = append(ms, m.Type)
+				if m.Discr != m.Type {
+					rs[m.Type] = m.Discr
+				}
+				ri[m.Type] = m.Int
+			}
+			if t.Repr == "int" {
+				ts.Accumulate(schema.SpawnEnum(n, ms, ri))
+			} else {
+				ts.Accumulate(schema.SpawnEnum(n, ms, rs))
+			}
+		}
+	}
+	if errs := ts.ValidateGraph(); len(errs) > 0 {
+		panic(errs[0])
+	}
+	return ts
+}
+
+// TypeSystem is the whole family; GenTypeSystem the part inside the generator's feature set.
+func TypeSystem() *schema.TypeSystem    { return Build(false) }
+func GenTypeSystem() *schema.TypeSystem { return Build(true) }
+
 // ---- Go types (explicit bindings) ----
 
 type Plain struct {
@@ -76,70 +226,4 @@ type Nested struct {
 	E  string
 	EI int64
 	By []byte
-}
-
-// TypeSystem builds the family.
-func TypeSystem() *schema.TypeSystem {
-	ts := &schema.TypeSystem{}
-	ts.Init()
-	ts.Accumulate(schema.SpawnInt("Int"))
-	ts.Accumulate(schema.SpawnString("String"))
-	ts.Accumulate(schema.SpawnBool("Bool"))
-	ts.Accumulate(schema.SpawnBytes("Bytes"))
-	ts.Accumulate(schema.SpawnStruct("Plain", []schema.StructField{
-		schema.SpawnStructField("A", "Int", false, false),
-		schema.SpawnStructField("B", "String", false, false),
-		schema.SpawnStructField("C", "Bool", false, false),
-	}, schema.SpawnStructRepresentationMap(map[string]string{"A": "a!"})))
-	ts.Accumulate(schema.SpawnStruct("Narrow", []schema.StructField{
-		schema.SpawnStructField("N", "Int", false, false),
-		schema.SpawnStructField("U", "Int", false, false),
-		schema.SpawnStructField("W", "Int", false, false),
-		schema.SpawnStructField("X", "Int", false, false),
-	}, schema.SpawnStructRepresentationMap(nil)))
-	ts.Accumulate(schema.SpawnStruct("OptNull", []schema.StructField{
-		schema.SpawnStructField("Req", "Int", false, false),
-		schema.SpawnStructField("Opt", "String", true, false),
-		schema.SpawnStructField("Nul", "Int", false, true),
-		schema.SpawnStructField("Both", "String", true, true),
-	}, schema.SpawnStructRepresentationMap(nil)))
-	ts.Accumulate(schema.SpawnStruct("Tuple", []schema.StructField{
-		schema.SpawnStructField("X", "Int", false, false),
-		schema.SpawnStructField("Y", "String", false, false),
-		schema.SpawnStructField("Z", "String", true, false),
-	}, schema.SpawnStructRepresentationTuple()))
-	ts.Accumulate(schema.SpawnStruct("Join", []schema.StructField{
-		schema.SpawnStructField("P", "String", false, false),
-		schema.SpawnStructField("Q", "String", false, false),
-	}, schema.SpawnStructRepresentationStringjoin(":")))
-	ts.Accumulate(schema.SpawnStruct("Pairs", []schema.StructField{
-		schema.SpawnStructField("A", "Int", false, false),
-		schema.SpawnStructField("B", "String", false, false),
-	}, schema.SpawnStructRepresentationListPairs()))
-	ts.Accumulate(schema.SpawnMap("MapSI", "String", "Int", false))
-	ts.Accumulate(schema.SpawnList("ListS", "String", false))
-	ts.Accumulate(schema.SpawnList("ListI", "Int", false))
-	ts.Accumulate(schema.SpawnUnion("UnionK", []schema.TypeName{"Int", "String"},
-		schema.SpawnUnionRepresentationKeyed(map[string]schema.TypeName{"i": "Int", "s": "String"})))
-	ts.Accumulate(schema.SpawnUnion("UnionKinded", []schema.TypeName{"Int", "String", "Plain"},
-		schema.SpawnUnionRepresentationKinded(map[datamodel.Kind]schema.TypeName{datamodel.Kind_Int: "Int", datamodel.Kind_String: "String", datamodel.Kind_Map: "Plain"})))
-	ts.Accumulate(schema.SpawnString("Foo"))
-	ts.Accumulate(schema.SpawnString("Bar"))
-	ts.Accumulate(schema.SpawnUnion("UnionSP", []schema.TypeName{"Foo", "Bar"},
-		schema.SpawnUnionRepresentationStringprefix("", map[string]schema.TypeName{"f:": "Foo", "b:": "Bar"})))
-	ts.Accumulate(schema.SpawnEnum("EnumS", []string{"Yes", "No"}, schema.EnumRepresentation_String{"No": "n"}))
-	ts.Accumulate(schema.SpawnEnum("EnumI", []string{"One", "Two"}, schema.EnumRepresentation_Int{"One": 1, "Two": 2}))
-	ts.Accumulate(schema.SpawnStruct("Nested", []schema.StructField{
-		schema.SpawnStructField("P", "Plain", false, false),
-		schema.SpawnStructField("L", "ListI", false, false),
-		schema.SpawnStructField("M", "MapSI", false, false),
-		schema.SpawnStructField("U", "UnionK", false, false),
-		schema.SpawnStructField("E", "EnumS", false, false),
-		schema.SpawnStructField("EI", "EnumI", false, false),
-		schema.SpawnStructField("By", "Bytes", false, false),
-	}, schema.SpawnStructRepresentationMap(nil)))
-	if errs := ts.ValidateGraph(); len(errs) > 0 {
-		panic(errs[0])
-	}
-	return ts
 }
